@@ -92,12 +92,29 @@ func TestC15E2E(t *testing.T) {
 		for _, r := range rules {
 			byHook[r.Hook] = append(byHook[r.Hook], r)
 		}
-		for h, rs := range byHook {
-			var convs []any
-			for _, r := range rs {
-				convs = append(convs, m{"fromVersion": r.From, "toVersion": r.To})
+		for _, h := range vlib.SortedKeys(byHook) {
+			rs := byHook[h]
+			// a hook may declare its rules for one CRD in several bindings (e.g. "up" and "down" conversions):
+			// half of the hooks with two or more rules spread them over two bindings
+			nBind := 1
+			if len(rs) >= 2 && rng.IntN(2) == 0 {
+				nBind = 2
 			}
-			hs.AddHook(h, 0o755, cfgJSON(m{"configVersion": "v1", "kubernetesCustomResourceConversion": []any{m{"name": "b-" + h, "crdName": crd, "conversions": convs}}}))
+			var bindings []any
+			for bi := 0; bi < nBind; bi++ {
+				var convs []any
+				for ri, r := range rs {
+					if ri%nBind == bi {
+						convs = append(convs, m{"fromVersion": r.From, "toVersion": r.To})
+					}
+				}
+				name := "b-" + h
+				if nBind > 1 {
+					name = fmt.Sprintf("b-%s-%d", h, bi)
+				}
+				bindings = append(bindings, m{"name": name, "crdName": crd, "conversions": convs})
+			}
+			hs.AddHook(h, 0o755, cfgJSON(m{"configVersion": "v1", "kubernetesCustomResourceConversion": bindings}))
 		}
 		// plan: the k-th execution of a hook is determined by the order of the chain steps
 		execIdx := map[string]int{}
